@@ -108,6 +108,11 @@ def main(argv=None):
         ctx.pool.close()
 
     new_v = [v for v in res.violations if v.get('key') not in ctx.known]
+    if os.environ.get('VERIF_DEBUG'):
+        for v in new_v:
+            print('DEBUG-VIOLATION', v['what'][:1200]); print('   CASE', json.dumps(v.get('replay'), ensure_ascii=False)[:int(os.environ.get('VERIF_DEBUG'))])
+        for d in res.disagreements:
+            print('DEBUG-DISAGREE', d['what'][:1200]); print('   CASE', json.dumps(d.get('replay'), ensure_ascii=False)[:int(os.environ.get('VERIF_DEBUG'))])
     known_v = {}
     for v in res.violations:
         if v.get('key') in ctx.known:
